@@ -6,6 +6,10 @@
 
 package runtime
 
+// A thread always belongs to a runtime (set by NewThread / the main thread's
+// construction and never reassigned): assumed for every Thread read from the heap.
+//@ typeinv Thread: self.Runtime != nil
+
 //@ macro isInt(v) = typeis(v.iface, int64)
 //@ macro isFloat(v) = typeis(v.iface, float64)
 //@ macro isNum(v) = (typeis(v.iface, int64) || typeis(v.iface, float64))
@@ -878,3 +882,13 @@ package runtime
 //@   requires tblOK(t) && valueOK(k)
 //@   modifies nothing
 //@   assert_before_call (*hashTable).next#3: !k.IsNil() ==> normKey(k, $k)
+
+// C06: the `..` operator charges the size of its result before building it.
+//@ func Concat
+//@   prop C06
+//@   arith int
+//@   norte
+//@   requires t != nil && t.Runtime != nil
+//@   modifies everything()
+//@   exits any
+//@   allocs charged slack 0
